@@ -536,9 +536,9 @@ example :
     let e : Env := { notary := 90, neoC := 91, gasC := 92, csize := 1, vcount := 1, attrFee := 0, signers := [⟨3, 1, [], []⟩] }
     let l : Ledger := { gas := [(3, 10)], gasSupply := 10 }
     let s : St := initSt e l
-    (Op.transfer .gas 3 4 5 (some 50) .none .other).witness s = some false ∧
-    (exec s (.transfer .gas 3 4 5 (some 50) .none .other)).cur.gas = [(3, 10)] ∧
-    (exec s (.transfer .gas 3 4 5 none .none .other)).cur.gas = [(3, 5), (4, 5)] := by decide
+    (Op.transfer .gas 3 4 5 (some 50) .null .other).witness s = some false ∧
+    (exec s (.transfer .gas 3 4 5 (some 50) .null .other)).cur.gas = [(3, 10)] ∧
+    (exec s (.transfer .gas 3 4 5 none .null .other)).cur.gas = [(3, 5), (4, 5)] := by decide
 
 /-! ## contracts blocked by Policy -/
 
@@ -551,15 +551,18 @@ theorem blocked_contract_not_callable (s : St) (op : Op) (h : callerBlocked s op
   rw [if_neg (by omega), if_pos h]
 
 -- non-vacuity: contract 50 holds 10 GAS and is blocked: a transfer it is asked to make faults, a payment to it with a
--- callback faults, a payment without callback classification (plain account semantics) would not
+-- callback faults; unblocked, the Wallet contract 50 accepts null data; `recvOf` is the model's classification
 example :
-    let e : Env := { notary := 90, neoC := 91, gasC := 92, csize := 1, vcount := 1, attrFee := 0, signers := [⟨3, 128, [], []⟩] }
+    let e : Env := { notary := 90, neoC := 91, gasC := 92, csize := 1, vcount := 1, attrFee := 0, signers := [⟨3, 128, [], []⟩],
+                     contracts := [(50, .wallet), (51, .noCallback)] }
     let l : Ledger := { gas := [(3, 10), (50, 10)], gasSupply := 20, blocked := [50] }
     let s : St := initSt e l
-    callerBlocked s (.transfer .gas 50 3 5 (some 50) .none .other) = true ∧
-    (step s (.transfer .gas 50 3 5 (some 50) .none .other)).failing = true ∧
-    (step s (.transfer .gas 3 50 5 none .accept .other)).failing = true ∧
-    (step { s with cur := { l with blocked := [] } } (.transfer .gas 3 50 5 none .accept .other)).cur.gas = [(3, 5), (50, 15)] := by
+    callerBlocked s (.transfer .gas 50 3 5 (some 50) .null .other) = true ∧
+    (step s (.transfer .gas 50 3 5 (some 50) .null .other)).failing = true ∧
+    (step s (.transfer .gas 3 50 5 none .null .other)).failing = true ∧
+    (step { s with cur := { l with blocked := [] } } (.transfer .gas 3 50 5 none .null .other)).cur.gas = [(3, 5), (50, 15)] ∧
+    recvOf e 50 .null = .accept ∧ recvOf e 50 .call = .cb ∧ recvOf e 50 .other = .throws ∧ recvOf e 51 .null = .throws ∧
+    recvOf e 3 .call = .none := by
   decide
 
 end NeoModel.Tokens
